@@ -184,6 +184,6 @@ def units(tier):
     ns = 4 if q else 8
     for s in range(ns):
         us.append({'name': 'enum-%d' % s, 'fn': 'unit_enum', 'kwargs': {'nmax': 5 if q else 6, 'shard': s, 'nshards': ns}})
-    for i in range(4 if q else 8):
-        us.append({'name': 'gen-%d' % i, 'fn': 'unit_generated', 'kwargs': {'n': 250 if q else 3000}})
+    for i in range(4 if q else 16):
+        us.append({'name': 'gen-%d' % i, 'fn': 'unit_generated', 'kwargs': {'n': 250 if q else 5000}})
     return us
